@@ -19,7 +19,9 @@ Ops == {"parse_value", "parse_datum", "print", "display", "cons_to_vec", "cons_t
         "list_iter", "cell_iter", "into_iter", "index_last", "index_str", "is_list", "is_dotted_list", "clone", "eq", "drop",
         "datum_clone", "datum_eq", "datum_drop", "datum_walk", "serde_to_value", "serde_from_value",
         \* the other ways Serde walks a list: skipping it (unknown field, IgnoredAny), as a map, through the text entry points
-        "parse_dotted_chain", "eq_differing", "drop_in_unwind", "serde_from_ignored_field", "serde_ignored_any", "serde_from_map", "serde_to_value_map", "serde_from_str", "serde_to_string"}
+        "parse_dotted_chain", "eq_differing", "drop_in_unwind", "serde_from_ignored_field", "serde_ignored_any", "serde_from_map", "serde_to_value_map", "serde_from_str", "serde_to_string",
+        \* a specialised Clone::clone_from; a long list as the offending value of a Serde type mismatch (the error describes it)
+        "clone_from", "serde_type_mismatch"}
 Shapes == {"proper", "dotted"}
 Builders == {"parser", "constructors", "serde"}
 
